@@ -11,7 +11,7 @@ import numpy as np
 import pandas as pd
 
 NAMES = ["chr1", "chr2", "chrX", "2", "HLA-DRB1.1", "chr 1", "chrUn_gl000220", "MT", "c10", "c2",
-         "scaffold_7-b", "1"]
+         "scaffold_7-b", "1", "ctg7,1", "ctg71"]
 
 BT_FAMILIES = ["fixed_exact", "fixed_short", "fixed_onebin", "variable", "onebin_each", "mixed",
                "multi_width", "trap"]
